@@ -356,7 +356,11 @@ def reference(world):
             ref['nogen'].add(c)
             continue
         base = c[:-1] if c.endswith('X') and c[:-1] in users else c[:-4] if c.endswith('REAL') else c
-        if c in world.get('generr', []) or (world.get('text', {}).get(base) == 'badimport' and c == base):
+        # a *used* import (the imported node is the OID parent) of a module that never got a symbol table makes code
+        # generation of the importer fail as well
+        cascade = bool(world.get('used')) and c == base and any(
+            b != c and b not in parsed for a, b in world.get('edges', []) if a == c)
+        if cascade or c in world.get('generr', []) or (world.get('text', {}).get(base) == 'badimport' and c == base):
             failed[c] = set(['failed'])
             ref['gen'].add(c)
             continue
